@@ -812,7 +812,7 @@ class PSBTView:
 
         # check if root is included in the script
         if sec in sc.data or pkh in sc.data:
-            sig = root.sign(h)
+            sig = (root.key if hasattr(root, "origin") else root).sign(h)
             # sig plus sighash flag
             inp.partial_sigs[rootpub] = sig.serialize() + bytes([inp_sighash])
             counter += 1
